@@ -63,7 +63,7 @@ def summarise(rec):
 
 def configs(ctx):
     rng = ctx.rng
-    n = ctx.budget(36, 400)
+    n = ctx.budget(30, 400)
     kinds = list(optrun.OPTIMISERS)
     out = []
     for i in range(n):
@@ -84,6 +84,14 @@ def configs(ctx):
         out.append(optrun.rerun_config(rng))
     for j in range(ctx.budget(4, 24)):
         out.append(optrun.failing_start_config(rng))
+    # parents passing through reproduction unchanged while (almost) every fresh graph fails evaluation
+    for j in range(ctx.budget(6, 36)):
+        out.append(optrun.passthrough_config(rng))
+    # almost every evaluation fails after the start; a metric that re-seeds the global generators
+    for j in range(ctx.budget(5, 30)):
+        out.append(optrun.lucky_few_config(rng))
+    for j in range(ctx.budget(6, 30)):
+        out.append(optrun.reseeding_metric_config(rng))
     return out
 
 
